@@ -5,7 +5,7 @@ import numpy as np
 from hypothesis import strategies as st
 
 import spectrum
-from vlib import gen, ref
+from vlib import est, gen, ref
 from vlib.harness import prop, sub
 
 prop("C17",
@@ -597,6 +597,43 @@ def c17_args(ctx, case):
         ctx.check(len(hits) >= 1,
                   "result of the %s rule equals none of the explicit-NSIG results for NSIG in 0..%d"
                   % (case["criteria"], P - 1), sig={"kind": kind})
+
+
+# ---- other spellings of the method name: either refused, or the same estimate ----------------------------------------------
+def enum_method(tier):
+    for sp in ("MUSIC", "EV", "Music", "Ev", "mUSIC", "eV", " music", "ev ", "MuSiC"):
+        for cplx in (False, True):
+            for P, nsig in ((4, 2), (9, 2)):
+                yield {"spelling": sp, "complex": cplx, "P": P, "nsig": nsig, "nfft": 64}
+
+
+@sub("C17.method", enum=enum_method, exhaustive=True,
+     doc="eigen(..., method=<'music' / 'ev' in another letter case or with a blank>): either refused with an exception, or the "
+         "result is the pseudo-spectrum of the canonical name (positive, finite, same singular values) -- never a silently "
+         "different estimate")
+def c17_method(ctx, case):
+    sp, P, nsig, nfft = case["spelling"], case["P"], case["nsig"], case["nfft"]
+    n = np.arange(40)
+    x = np.exp(2j * np.pi * 0.125 * n) + 0.7 * np.exp(2j * np.pi * (-0.25) * n + 0.4j) if case["complex"] else np.cos(2 * np.pi * 0.125 * n + 0.3)
+    canon = sp.strip().lower()
+    ctx.cls(canon, "complex" if case["complex"] else "real", "P=%d" % P)
+    ctx.nontrivial(True)
+    ref_psd, ref_s = spectrum.eigen(x, P, NSIG=nsig, method=canon, NFFT=nfft)
+    try:
+        psd, sv = spectrum.eigen(x, P, NSIG=nsig, method=sp, NFFT=nfft)
+    except Exception:      # noqa -- refused: nothing else is claimed
+        ctx.cls("refused")
+        return
+    ctx.cls("accepted")
+    psd, ref_psd = np.asarray(psd, dtype=float), np.asarray(ref_psd, dtype=float)
+    sig = {"clause": "method-spelling"}
+    ctx.check(psd.shape == ref_psd.shape, "eigen(method=%r) returned %s values, method=%r %s" % (sp, psd.shape, canon, ref_psd.shape), sig=sig)
+    ctx.check(not np.any(np.isnan(psd)) and np.all(psd > 0), "eigen(method=%r): pseudo-spectrum has NaN or non-positive values" % sp, sig=sig)
+    ctx.check(np.array_equal(np.isfinite(psd), np.isfinite(ref_psd)),
+              "eigen(method=%r) was accepted but is infinite at %d bins where method=%r is finite" % (sp, int(np.sum(~np.isfinite(psd) & np.isfinite(ref_psd))), canon), sig=sig)
+    m = np.isfinite(ref_psd)
+    est.compare_psd(ctx, "music", psd[m], ref_psd[m], "eigen(method=%r) vs eigen(method=%r)" % (sp, canon), sig=sig)
+    ctx.close(np.asarray(sv, dtype=float), np.asarray(ref_s, dtype=float), "singular values for method=%r vs %r" % (sp, canon), rtol=1e-12, sig=sig)
 
 
 # ---- number-type invariance (integer samples of a narrow dtype) -------------------
